@@ -62,7 +62,9 @@ Spec == Init /\ [][Next]_<<grid, cell, home, hops>>
 Torus == cell = Translate(grid, home, hops) /\ Relative(grid, cell, home) = hops /\ InGrid(grid, cell)
 
 B(b) == IF b THEN 1 ELSE 0
-EmitTable == PrintT(<<"TABLE", ToJson(
+ASSUME TLCSet(7, 0)
+(* printed once: the table is a constant, but TLC would re-evaluate (and re-serialise) it in every state *)
+EmitTable == TLCGet(7) = 1 \/ (TLCSet(7, 1) /\ PrintT(<<"TABLE", ToJson(
     [grids |-> {[g |-> g,
                  rel |-> {<<Index(g, c), Index(g, r), Index(g, Relative(g, c, r)), Index(g, Translate(g, c, r))>> :
                              c \in CellsOf(g), r \in CellsOf(g)},
@@ -71,5 +73,5 @@ EmitTable == PrintT(<<"TABLE", ToJson(
                              c \in CellsOf(g), d \in 1 .. Dim(g), up \in BOOLEAN},
                  near |-> {<<nl, Index(g, c), {Index(g, e) : e \in PNearby(g, nl, c)}, {Index(g, e) : e \in Nearby(g, nl, c)}>> :
                              nl \in Layers, c \in CellsOf(g)},
-                 ids |-> {<<Index(g, c), c>> : c \in CellsOf(g)}] : g \in Grids}])>>)
+                 ids |-> {<<Index(g, c), c>> : c \in CellsOf(g)}] : g \in Grids}])>>))
 =============================================================================
